@@ -533,6 +533,39 @@ def _check_config(cx: "Ctx", cfg_name: str, family: str, ctor: str, kind: str, t
                              f"{bad[0] + 1}: {bad[1][:4]}", dict(doc, step=bad[0]))
     timing["scan_s"] = round(time.time() - t0, 2)
 
+    # ------------------------------------------------------------------ (1c') default-integer-dtype actions
+    # A policy's `argmax` / `randint` yields int32 actions; where the action spec declares another integer dtype
+    # (MultiCVRP: int16) the same action values in int32 must give the same transition, leave every state leaf's
+    # dtype as it was (a type-stable carry) and roll out under lax.scan like the spec-typed ones.
+    if A_np.dtype.kind in "iu" and A_np.dtype != np.int32:
+        A32 = A_np.astype(np.int32)
+        for pi, p in enumerate(paths[:6]):
+            L = min(len(p["acts"]), 5)
+            acts32 = A32[np.array(p["acts"][:L])]
+            doc = {"kind": "scan", "key": p["key"], "path": [int(a) for a in p["acts"]], "action_dtype": "int32",
+                   "path_actions": [np.asarray(actions[a]).tolist() for a in p["acts"]], "length": L}
+            got1 = canon(step_j(p["states"][0], jnp.asarray(acts32[0])))
+            d = leaf_diff((p["states"][1], p["ts"][0]), got1)
+            cx.count("n_int32_action_steps")
+            if d:
+                cx.violation("step:int32-actions-differ", f"env.step with the same action values as int32 (spec dtype {A_np.dtype}) "
+                             f"differs (values or leaf dtypes): {d[:4]}", dict(doc, length=1))
+                continue
+            try:
+                final, (ss, tss) = scan_j(p["states"][0], acts32)
+            except Exception as e:  # noqa: BLE001
+                cx.violation("scan-raises", f"lax.scan(env.step) over int32 actions (spec dtype {A_np.dtype}) raised "
+                             f"{type(e).__name__}: {str(e)[:300]}", doc)
+                continue
+            ss, tss = canon(ss), canon(tss)
+            cx.count("n_int32_action_scans")
+            for t in range(L):
+                d = leaf_diff((p["states"][t + 1], p["ts"][t]), (t_index(ss, t), t_index(tss, t)))
+                if d:
+                    cx.violation("scan-int32-actions-differ", f"lax.scan(env.step) over int32 actions differs from the graph at "
+                                 f"step {t + 1}: {d[:4]}", dict(doc, step=t))
+                    break
+
     # ------------------------------------------------------------------ (1d)+(3) eager step, arguments intact
     t0 = time.time()
     order = seeded_order(N, seed, "eager-step")
@@ -1136,8 +1169,11 @@ def replay_case(doc: Dict[str, Any]) -> int:
 
             return jax.lax.scan(body, s, acts)
 
+        acts_r = A_np[np.array(r["path"][: r["length"]])]
+        if r.get("action_dtype"):
+            acts_r = acts_r.astype(r["action_dtype"])
         try:
-            final, (ss, tss) = jax.jit(_scan)(root, A_np[np.array(r["path"][: r["length"]])])
+            final, (ss, tss) = jax.jit(_scan)(root, acts_r)
         except Exception as e:  # noqa: BLE001
             print(f"  scan raised {type(e).__name__}: {str(e)[:300]}")
             return 1
